@@ -1,7 +1,7 @@
 (* C15 - Subset load balancing honours metadata and its fallback policy.  Only statements; proofs by `exact`. *)
 From Coq Require Import List Arith Bool.
-From MV Require Import Gen.SubsetTokens Gen.CriteriaTokens Model.Subset Model.Criteria Proofs.Subset Proofs.SubsetKeys
-  Proofs.SubsetIx Proofs.Criteria.
+From MV Require Import Gen.SubsetTokens Gen.CriteriaTokens Gen.HostUpdateTokens Model.Subset Model.Criteria Model.HostUpdate
+  Proofs.Subset Proofs.SubsetKeys Proofs.SubsetIx Proofs.Criteria Proofs.HostUpdate.
 Import ListNotations.
 
 (* make1 = NewSubsetLoadBalancer (filtering builder), make2 = NewSubsetLoadBalancerPreIndex (pre-indexed builder).
@@ -178,6 +178,24 @@ Print Assumptions c15_merge_sorted.
 Theorem c15_criteria_merge_in_place_refuted : ~ crit_independent_statement CritMergeInPlace.
 Proof. exact crit_merge_in_place_refuted. Qed.
 Print Assumptions c15_criteria_merge_in_place_refuted.
+
+(* The labels the subset balancers are built from are the PUBLISHED ones (Model/HostUpdate.v): `reuse_mode` = may the
+   full host update (NewSimpleHostHandler) carry a host object over from the previous host set - READ FROM
+   cluster_manager.go.  Every published host carries exactly the attributes (labels, weight, hostname, tls flag) of the
+   config it was published from; after any history the published set is the last update.  Type-checks only while every
+   host object is built from the new config; keeping the object when the OLD labels are a subset of the new ones is
+   refuted (a label key added). *)
+Theorem c15_hostupdate_translator_ok : HostUpdateTokens_translator_ok = true.
+Proof. exact (eq_refl true). Qed.
+
+Theorem c15_published_attributes_exact : forall published cfgs,
+  update_hosts reuse_mode published cfgs = dedup_cfg [] cfgs.
+Proof. exact (update_exact_of_mode reuse_mode (eq_refl ReuseNever)). Qed.
+Print Assumptions c15_published_attributes_exact.
+
+Theorem c15_labels_subset_shortcut_refuted : ~ update_exact_statement ReuseIfLabelsSubset.
+Proof. exact labels_subset_shortcut_refuted. Qed.
+Print Assumptions c15_labels_subset_shortcut_refuted.
 
 (* C05's statements on top of subset balancing: whatever the criteria and the fallback, the returned host is a
    host of the cluster, and healthy whenever the inner policy only returns healthy hosts *)
